@@ -196,6 +196,10 @@ pub fn worker_main(args: &[String]) -> i32 {
     }
     let out = std::io::stdout();
     let mut out = out.lock();
+    let subfile = format!("{}/sub-{}.bin", tmp_dir(), std::process::id());
+    if crate::subcase::init(&subfile) {
+        writeln!(out, "SUBFILE {}", subfile).unwrap();
+    }
     let mut agg = Stats::default();
     let mut nontrivial: HashSet<u64> = HashSet::new();
     let mut states: HashSet<u64> = HashSet::new();
@@ -212,7 +216,9 @@ pub fn worker_main(args: &[String]) -> i32 {
         out.flush().unwrap();
         let case = (def.gen)(seed, idx, tier);
         alloc_count::reset_peak();
+        crate::subcase::clear();
         let o = (def.run)(&case, &known);
+        crate::subcase::clear();
         let pk = alloc_count::peak();
         peak_mem = peak_mem.max(pk);
         cases += 1;
@@ -254,6 +260,7 @@ pub fn worker_main(args: &[String]) -> i32 {
     dumpset(&nt_file, &nontrivial);
     dumpset(&st_file, &states);
     agg.state_hashes.clear();
+    let _ = std::fs::remove_file(&subfile);
     writeln!(out, "SUMMARY {}", json!({"cases": cases, "stats": agg.to_json(), "peak_mem": peak_mem, "nt_file": nt_file, "st_file": st_file})).unwrap();
     out.flush().unwrap();
     0
@@ -289,6 +296,12 @@ pub fn exec_case_main() -> i32 {
         }
     };
     crate::driver::install_panic_hook();
+    unsafe {
+        let lim = libc::rlimit { rlim_cur: 6 << 30, rlim_max: 6 << 30 };
+        libc::setrlimit(libc::RLIMIT_AS, &lim);
+        let cpu = libc::rlimit { rlim_cur: 600, rlim_max: 600 };
+        libc::setrlimit(libc::RLIMIT_CPU, &cpu);
+    }
     let known: BTreeSet<String> = if std::env::var("VERIF_IGNORE_KNOWN").is_ok() { BTreeSet::new() } else { known_sigs(def.id) };
     println!("START");
     let o = (def.run)(&case, &known);
@@ -509,6 +522,7 @@ struct Worker {
     wall_at_marker: Instant,
     done: bool,
     summary: bool,
+    subfile: Option<String>,
 }
 
 pub struct RunResult {
@@ -550,7 +564,7 @@ pub fn run_cases(def: &CheckDef, tier: Tier, seed: u64, nworkers: u64, end: Opti
     for i in 0..nworkers {
         let mut child = spawn_worker(def, tier, seed, i, nworkers, 0, end);
         attach(&mut child, workers.len(), tx.clone());
-        workers.push(Worker { child, shard: i, current: None, cpu_at_marker: 0.0, wall_at_marker: Instant::now(), done: false, summary: false });
+        workers.push(Worker { child, shard: i, current: None, cpu_at_marker: 0.0, wall_at_marker: Instant::now(), done: false, summary: false, subfile: None });
     }
     let mut res = RunResult {
         violations: vec![],
@@ -570,7 +584,9 @@ pub fn run_cases(def: &CheckDef, tier: Tier, seed: u64, nworkers: u64, end: Opti
     while live > 0 {
         match rx.recv_timeout(Duration::from_millis(500)) {
             Ok(Msg::Line(slot, l)) => {
-                if let Some(n) = l.strip_prefix("CASE ") {
+                if let Some(pth) = l.strip_prefix("SUBFILE ") {
+                    workers[slot].subfile = Some(pth.to_string());
+                } else if let Some(n) = l.strip_prefix("CASE ") {
                     let w = &mut workers[slot];
                     w.current = n.parse().ok();
                     w.cpu_at_marker = proc_cpu_seconds(w.child.id()).unwrap_or(0.0);
@@ -621,10 +637,15 @@ pub fn run_cases(def: &CheckDef, tier: Tier, seed: u64, nworkers: u64, end: Opti
                 if !w.summary {
                     // died without a summary: abort in the last announced case
                     let idx = w.current.unwrap_or(0);
-                    let case = (def.gen)(seed, idx, tier);
+                    let sub = w.subfile.as_ref().and_then(|p| crate::subcase::read(p));
+                    if let Some(p) = &w.subfile {
+                        let _ = std::fs::remove_file(p);
+                    }
+                    let pinpointed = sub.is_some();
+                    let case = sub.unwrap_or_else(|| (def.gen)(seed, idx, tier));
                     res.violations.push((
                         idx,
-                        Violation { property: def.id.into(), rule: "abort".into(), site: "process".into(), msg: format!("worker process died while executing case {}", idx), step: 0 },
+                        Violation { property: def.id.into(), rule: "abort".into(), site: "process".into(), msg: format!("worker process died (abort, stack overflow or memory limit) while executing case {}{}", idx, if pinpointed { " - the single run in progress was recovered" } else { "" }), step: 0 },
                         case,
                     ));
                     res.agg.cases += 1;
@@ -634,7 +655,7 @@ pub fn run_cases(def: &CheckDef, tier: Tier, seed: u64, nworkers: u64, end: Opti
                         let mut child = spawn_worker(def, tier, seed, shard, nworkers, idx + 1, end);
                         let slot2 = workers.len();
                         attach(&mut child, slot2, tx.clone());
-                        workers.push(Worker { child, shard, current: None, cpu_at_marker: 0.0, wall_at_marker: Instant::now(), done: false, summary: false });
+                        workers.push(Worker { child, shard, current: None, cpu_at_marker: 0.0, wall_at_marker: Instant::now(), done: false, summary: false, subfile: None });
                         live += 1;
                     }
                 }
@@ -657,10 +678,15 @@ pub fn run_cases(def: &CheckDef, tier: Tier, seed: u64, nworkers: u64, end: Opti
                 w.done = true;
                 w.summary = true; // handled here
                 live -= 1;
-                let case = (def.gen)(seed, idx, tier);
+                let sub = w.subfile.as_ref().and_then(|p| crate::subcase::read(p));
+                if let Some(p) = &w.subfile {
+                    let _ = std::fs::remove_file(p);
+                }
+                let pinpointed = sub.is_some();
+                let case = sub.unwrap_or_else(|| (def.gen)(seed, idx, tier));
                 res.violations.push((
                     idx,
-                    Violation { property: def.id.into(), rule: "hang".into(), site: "process".into(), msg: format!("case {} used more than {} CPU-seconds (or 300 s wall) and was killed", idx, def.cpu_limit_s), step: 0 },
+                    Violation { property: def.id.into(), rule: "hang".into(), site: "process".into(), msg: format!("case {} used more than {} CPU-seconds (or 300 s wall) and was killed{}", idx, def.cpu_limit_s, if pinpointed { " - the single run in progress was recovered" } else { "" }), step: 0 },
                     case,
                 ));
                 res.agg.cases += 1;
@@ -670,7 +696,7 @@ pub fn run_cases(def: &CheckDef, tier: Tier, seed: u64, nworkers: u64, end: Opti
                     let mut child = spawn_worker(def, tier, seed, shard, nworkers, idx + 1, end);
                     let slot2 = workers.len();
                     attach(&mut child, slot2, tx.clone());
-                    workers.push(Worker { child, shard, current: None, cpu_at_marker: 0.0, wall_at_marker: Instant::now(), done: false, summary: false });
+                    workers.push(Worker { child, shard, current: None, cpu_at_marker: 0.0, wall_at_marker: Instant::now(), done: false, summary: false, subfile: None });
                     live += 1;
                 }
             }
@@ -828,14 +854,15 @@ pub fn run_main(args: &[String]) -> i32 {
     let min_budget = Duration::from_secs(if tier == Tier::Quick { 40 } else { 180 } / (by_sig.len().max(1) as u64).min(8).max(1));
     for (sig, (idx, v, case, count)) in by_sig.iter().take(12) {
         // confirm in a fresh process
-        let r0 = exec_case_subprocess(case, true, 600);
+        let process_level = sig.ends_with("@process");
+        let r0 = exec_case_subprocess(case, true, if process_level { (def.cpu_limit_s * 2).clamp(30, 120) } else { 600 });
         if !r0.sigs.iter().any(|s| s == sig) {
             eprintln!("HARNESS ERROR: violation {} of case {} does not reproduce in a fresh process (observed {:?})", sig, idx, r0.sigs);
             harness_error = true;
             continue;
         }
-        let small = minimise(case, sig, min_budget);
-        let r1 = exec_case_subprocess(&small, true, 600);
+        let small = if process_level { case.clone() } else { minimise(case, sig, min_budget) };
+        let r1 = if process_level { ExecResult { sigs: r0.sigs.clone(), msgs: r0.msgs.clone(), trace: r0.trace.clone(), harness: None } } else { exec_case_subprocess(&small, true, 600) };
         let (final_case, r) = if r1.sigs.iter().any(|s| s == sig) { (small, r1) } else { (case.clone(), r0) };
         let msg = r.sigs.iter().zip(r.msgs.iter()).find(|(s, _)| *s == sig).map(|(_, m)| m.clone()).unwrap_or(v.msg.clone());
         let mut v2 = v.clone();
@@ -898,7 +925,12 @@ pub fn run_main(args: &[String]) -> i32 {
             "workers": nworkers,
         }
     });
-    let epath = format!("{}/evidence/{}.json", VERIF_DIR, def.id);
+    // partial runs (--cases) and self-tests must not replace the evidence of a real run
+    let epath = if end.is_some() || std::env::var("VERIF_NO_EVIDENCE").is_ok() {
+        format!("{}/evidence-partial-{}.json", tmp_dir(), def.id)
+    } else {
+        format!("{}/evidence/{}.json", VERIF_DIR, def.id)
+    };
     let _ = std::fs::create_dir_all(format!("{}/evidence", VERIF_DIR));
     if let Err(e) = std::fs::write(&epath, serde_json::to_string_pretty(&evidence).unwrap()) {
         eprintln!("HARNESS ERROR: cannot write {}: {}", epath, e);
